@@ -355,7 +355,7 @@ pub fn run<S: Src, const FAM: u8, const MUT: bool, const INIT: bool, const ANN: 
     let (mut ma, mut mb) = mk_both(&t);
     #[cfg(kani)]
     {
-        use crate::stubs::{allow_alloc, forbid_grow};
+        use crate::stubs::{allow_alloc, allow_grow};
         // vectors built by next_indices* / from_iter: 1..4 index entries of 24 bytes
         allow_alloc(1, 24);
         allow_alloc(2, 48);
@@ -364,7 +364,9 @@ pub fn run<S: Src, const FAM: u8, const MUT: bool, const INIT: bool, const ANN: 
         // stacks (reserved capacity K1 + 1, must not grow) and harness-side staging vectors
         let esz = if FAM == UNION && !MUT { 56 } else if FAM == DIFF { 40 } else { 24 };
         allow_alloc(5, (K1 + 1) * esz);
-        forbid_grow(0, (K1 + 1) * esz);
+        // index vectors of one or two entries grow to capacity four
+        allow_grow(0, 24, 96);
+        allow_grow(1, 48, 96);
         // `.collect()` of the initial stack in the constructors: 1 or 2 entries
         allow_alloc(6, esz);
         allow_alloc(7, 2 * esz);
@@ -727,6 +729,267 @@ pub fn run<S: Src, const FAM: u8, const MUT: bool, const INIT: bool, const ANN: 
     cover!(s, INIT || (item.is_some() && len == K), "item produced from a full stack");
     cover!(s, INIT || (item.is_none() && len > 0), "stack drained without an item");
     cover!(s, INIT || N < 3 || (item.is_some() && plen > len), "stack grew");
+    std::mem::forget(ma);
+    std::mem::forget(mb);
+}
+
+/// Layer H (DESIGN.md §4): contracts of the loop-free helper functions that classify a pair of
+/// nodes and descend on one side. WHICH: 0 next_indices(Some l, Some r), 1 next_indices_first_l /
+/// _a (pre: p_l strictly covers p_r), 2 next_indices_first_r / _b (pre: p_r strictly covers p_l).
+/// The returned entries, in push order, must satisfy S1/S2, cover exactly the scope (the two
+/// sub-trees, minus the processed shallower node) on the sides the family keeps, and be closed.
+pub fn helper<S: Src, const FAM: u8, const WHICH: u8, const N: usize>(s: &mut S) {
+    let mut t = two::<S, N>(s);
+    // the helpers do not know about views: scope is relative to the two nodes
+    t.la = Loc { virt: None, idx: 0 };
+    t.lb = Loc { virt: None, idx: 0 };
+    let l = s.idx(N);
+    let r = s.idx(N);
+    s.assume(t.ra[l] && t.rb[r]);
+    let pl = t.a[l].0;
+    let pr = t.b[r].0;
+    match WHICH {
+        1 => s.assume(covers_strict(&pl, &pr)),
+        2 => s.assume(covers_strict(&pr, &pl)),
+        _ => {}
+    }
+    let (ma, mb) = mk_both(&t);
+    #[cfg(kani)]
+    {
+        use crate::stubs::{allow_alloc, allow_grow};
+        allow_alloc(1, 24);
+        allow_alloc(2, 48);
+        allow_alloc(3, 72);
+        allow_alloc(4, 96);
+        allow_grow(0, 24, 96);
+        allow_grow(1, 48, 96);
+    }
+    use prefix_trie::trieview::{__verif_difference as hd, __verif_intersection as hi, __verif_union as hu};
+    let mut out = [NOENT; 3];
+    let mut n = 0usize;
+    {
+        let v: Vec<(u8, usize, usize)> = match (FAM, WHICH) {
+            (UNION, 0) => hu::next_indices(&ma, &mb, Some(l), Some(r)),
+            (UNION, 1) => hu::next_indices_first_l(&ma, &mb, l, r),
+            (UNION, _) => hu::next_indices_first_r(&ma, &mb, l, r),
+            (INTER, 0) => hi::next_indices(&ma, &mb, Some(l), Some(r)).into_iter().collect(),
+            (INTER, 1) => hi::next_indices_first_a(&ma, &mb, l, r).into_iter().collect(),
+            (INTER, _) => hi::next_indices_first_b(&ma, &mb, l, r).into_iter().collect(),
+            (_, 0) => hd::next_indices(&ma, &mb, Some(l), Some(r)),
+            (_, 1) => hd::next_indices_first_a(&ma, &mb, l, r),
+            (_, _) => hd::next_indices_first_b(&ma, &mb, l, r),
+        };
+        n = v.len();
+        let mut i = 0;
+        while i < 3 {
+            if i < v.len() {
+                out[i] = Ent { k: v[i].0, l: v[i].1, r: v[i].2, ll: None, lr: None };
+            }
+            i += 1;
+        }
+        std::mem::forget(v);
+    }
+    check!(s, n <= 3, "C05,C06,C07:a helper returns at most three entries");
+    // scope on each side
+    let x = s.idx(N);
+    let y = s.idx(N);
+    let in_l = t.sa[l][x] && !(WHICH == 1 && x == l);
+    let in_r = t.sb[r][y] && !(WHICH == 2 && y == r);
+    let ex = t.ra[x] && t.a[x].1.is_some() && in_l; // entry in the left scope
+    let ey = t.rb[y] && t.b[y].1.is_some() && in_r;
+    // S1 + S2 + closure, entry by entry
+    let mut ok_kind = true;
+    let mut ok_order = true;
+    let mut ok_scope = true;
+    let mut ok_closed = true;
+    let mut cov_x = false;
+    let mut cov_y = false;
+    let mut i = 0;
+    while i < 3 {
+        if i < n {
+            let e = out[i];
+            let kmax = match FAM {
+                UNION => 4,
+                INTER => 2,
+                _ => 3,
+            };
+            ok_kind = ok_kind && e.k <= kmax;
+            if Two::<N>::has_l(&e) {
+                ok_scope = ok_scope && e.l < N && t.sa[l][e.l] && !(WHICH == 1 && e.l == l);
+            }
+            if Two::<N>::has_r(&e) {
+                ok_scope = ok_scope && e.r < N && t.sb[r][e.r] && !(WHICH == 2 && e.r == r);
+            }
+            if ok_scope {
+                let el = t.a[e.l].0;
+                let er = t.b[e.r].0;
+                ok_kind = ok_kind
+                    && match e.k {
+                        0 => same(&el, &er),
+                        1 => covers_strict(&el, &er),
+                        2 => covers_strict(&er, &el),
+                        _ => true,
+                    };
+                let an = t.anchor(&e);
+                let mut j = 0;
+                while j < i {
+                    let bn = t.anchor(&out[j]);
+                    ok_order = ok_order && disjoint(&an, &bn) && lex_lt(&an, &bn);
+                    j += 1;
+                }
+                if in_l && covers(&an, &t.a[x].0) && ex {
+                    let need = match FAM {
+                        INTER => t.partner_in(&t.a[x].0, r, WHICH == 2),
+                        _ => true,
+                    };
+                    if need {
+                        ok_closed = ok_closed && t.rem_l(&e, x);
+                    }
+                }
+                if in_r && covers(&an, &t.b[y].0) && ey {
+                    ok_closed = ok_closed && (t.rem_r(&e, y) || (FAM == INTER && !t.partner_in_l(&t.b[y].0, l, WHICH == 1)));
+                }
+                cov_x = cov_x || t.rem_l(&e, x);
+                cov_y = cov_y || t.rem_r(&e, y);
+            }
+        }
+        i += 1;
+    }
+    check!(s, ok_scope, "C05,C06,C07:helper results stay inside the two sub-trees");
+    check!(s, ok_kind, "C05,C06,C07:helper results are classified by length, containment and network order");
+    check!(s, ok_order, "C05,C06,C07:helper results are pushed in descending lexicographic order with disjoint anchors");
+    check!(s, ok_closed, "C05,C06,C07:every entry under the anchor of a result stays with that result");
+    match FAM {
+        UNION => {
+            check!(s, !ex || cov_x, "C05:no left entry of the scope is dropped");
+            check!(s, !ey || cov_y, "C05:no right entry of the scope is dropped");
+        }
+        INTER => {
+            if ex && ey && same(&t.a[x].0, &t.b[y].0) {
+                check!(s, cov_x && cov_y, "C06:no common entry of the scope is pruned");
+            }
+        }
+        _ => {
+            check!(s, !ex || cov_x, "C07:no left entry of the scope is dropped");
+            if ex && ey && covers(&t.b[y].0, &t.a[x].0) {
+                check!(s, cov_y, "C07:a right entry covering a kept left entry stays reachable");
+            }
+        }
+    }
+    cover!(s, !(FAM == UNION && WHICH != 0) || n == 3, "three entries returned");
+    cover!(s, n >= 1 && out[0].k == 0, "a Both entry");
+    cover!(s, WHICH != 0 || disjoint(&pl, &pr), "disjoint pair");
+    std::mem::forget(ma);
+    std::mem::forget(mb);
+}
+
+impl<const N: usize> Two<N> {
+    /// does the right scope (sub-tree of r, optionally without r) hold an entry with key `p`
+    pub fn partner_in(&self, p: &P, r: usize, skip_root: bool) -> bool {
+        let mut f = false;
+        let mut y = 0;
+        while y < N {
+            if self.rb[y] && self.b[y].1.is_some() && self.sb[r][y] && !(skip_root && y == r) && same(&self.b[y].0, p) {
+                f = true;
+            }
+            y += 1;
+        }
+        f
+    }
+    pub fn partner_in_l(&self, p: &P, l: usize, skip_root: bool) -> bool {
+        let mut f = false;
+        let mut x = 0;
+        while x < N {
+            if self.ra[x] && self.a[x].1.is_some() && self.sa[l][x] && !(skip_root && x == l) && same(&self.a[x].0, p) {
+                f = true;
+            }
+            x += 1;
+        }
+        f
+    }
+}
+
+/// C05/C08/C18 cross-check without any invariant: full `union` traversal from the real constructor
+/// over two tiny maps (whole-map views). Every item: order, tag, values, LPM annotation, reported
+/// representation; every entry of either map appears exactly once (probe).
+pub fn union_whole<S: Src, const N: usize>(s: &mut S) {
+    let mut t = two::<S, N>(s);
+    t.la = Loc { virt: None, idx: 0 };
+    t.lb = Loc { virt: None, idx: 0 };
+    if N == 1 {
+        // one loop body of next(): the root pair yields an item at once
+        s.assume(t.a[0].1.is_some() || t.b[0].1.is_some());
+        // WF already forces a single slot to be childless; say so explicitly so that symex folds it
+        t.a[0].2 = None;
+        t.a[0].3 = None;
+        t.b[0].2 = None;
+        t.b[0].3 = None;
+        t.a[0].0 .1 = 0;
+        t.b[0].0 .1 = 0;
+    }
+    let (ma, mb) = mk_both(&t);
+    #[cfg(kani)]
+    {
+        use crate::stubs::{allow_alloc, allow_grow};
+        allow_alloc(1, 24);
+        allow_alloc(2, 48);
+        allow_alloc(3, 56);
+        allow_alloc(4, 112);
+        allow_alloc(5, 8 * 56);
+        allow_grow(0, 24, 96);
+        allow_grow(1, 48, 96);
+    }
+    let q = any_p(s);
+    use prefix_trie::trieview::UnionItem;
+    use prefix_trie::AsView;
+    let mut it = ma.view().union(&mb);
+    if N > 1 {
+        it.__verif_rehome(8);
+    }
+    let mut last: Option<P> = None;
+    let mut seen_q = 0usize;
+    let mut k = 0;
+    // at most one item per distinct prefix: N = 1 means at most one item
+    while k < (if N == 1 { 1 } else { 2 * N }) {
+        if let Some(item) = it.next() {
+            let pp: *const P = item.prefix();
+            let p = *item.prefix();
+            if let Some(lp) = last {
+                check!(s, lex_lt(&lp, &p), "C05:union items ascend by (network address, length)");
+            }
+            last = Some(p);
+            let il = lookup(&t.a, &t.ra, &p);
+            let ir = lookup(&t.b, &t.rb, &p);
+            let (gl, gr, tag) = match item {
+                UnionItem::Both { left, right, .. } => (Some(*left), Some(*right), 0),
+                UnionItem::Left { left, .. } => (Some(*left), None, 1),
+                UnionItem::Right { right, .. } => (None, Some(*right), 2),
+            };
+            check!(s, gl == il.and_then(|i| t.a[i].1) && gr == ir.and_then(|j| t.b[j].1) && (il.is_some() || ir.is_some()), "C05:union item is tagged by presence and carries the stored values");
+            let repr_ok = il.map(|i| ma.__verif_prefix_ptr(i) == pp).unwrap_or(false) || ir.map(|j| mb.__verif_prefix_ptr(j) == pp).unwrap_or(false);
+            check!(s, repr_ok, "C18:union item prefix is the representation stored with the entry (of one of the operands storing it)");
+            match item {
+                UnionItem::Left { right, .. } => {
+                    check!(s, right.map(|(p, v)| (*p, *v)) == t.lpm_r(&p).map(|j| (t.b[j].0, t.b[j].1.unwrap())), "C08:UnionItem::Left.right is the longest match in the right view");
+                }
+                UnionItem::Right { left, .. } => {
+                    check!(s, left.map(|(p, v)| (*p, *v)) == t.lpm_l(&p).map(|i| (t.a[i].0, t.a[i].1.unwrap())), "C08:UnionItem::Right.left is the longest match in the left view");
+                }
+                _ => {}
+            }
+            if same(&p, &q) {
+                seen_q += 1;
+            }
+        }
+        k += 1;
+    }
+    check!(s, it.next().is_none(), "C05:union is exhausted after all prefixes of both operands");
+    let stored = lookup(&t.a, &t.ra, &q).is_some() || lookup(&t.b, &t.rb, &q).is_some();
+    check!(s, seen_q == if stored { 1 } else { 0 }, "C05:every prefix of either operand exactly once, nothing else");
+    cover!(s, count(&t.a, &t.ra) >= 1 && count(&t.b, &t.rb) >= 1, "both operands non-empty");
+    cover!(s, lookup(&t.a, &t.ra, &q).is_some() && lookup(&t.b, &t.rb, &q).is_some() && t.a[lookup(&t.a, &t.ra, &q).unwrap()].0 .0 != t.b[lookup(&t.b, &t.rb, &q).unwrap()].0 .0, "common prefix with different host bits");
+    cover!(s, lookup(&t.a, &t.ra, &q).is_none() && lookup(&t.b, &t.rb, &q).is_some() && node_at(&t.a, &t.ra, &q).is_some(), "right-only entry on a value-less left node");
+    std::mem::forget(it);
     std::mem::forget(ma);
     std::mem::forget(mb);
 }
